@@ -27,6 +27,23 @@ def consumer(n):
     return None
 
 
+
+def self_type(name):
+    """`<SELF as Trait>::method::<generic args>` -> SELF: what is consumed is a stream of values only if the iterator
+    itself yields them; a closure argument that returns a Result (e.g. `slice.iter().try_for_each(|x| ..)`) does not
+    make a finite container a value stream"""
+    if not name.startswith("<"):
+        return name
+    depth = 0
+    for i, ch in enumerate(name):
+        if ch == "<":
+            depth += 1
+        elif ch == ">":
+            depth -= 1
+        elif depth == 1 and name.startswith(" as ", i):
+            return name[1:i]
+    return name
+
 def forcing_sites(g, roots, removed):
     """Construction-time region CT = what the roots reach through direct calls without crossing a consuming
     iterator method on a stream type; every such crossing made from first-party code is a forcing site."""
@@ -41,7 +58,7 @@ def forcing_sites(g, roots, removed):
                 continue
             nb = N[b]
             c = consumer(nb)
-            if c and STREAM.search(nb["name"]):
+            if c and STREAM.search(self_type(nb["name"])):
                 if N[a]["crate"] in FP:
                     sites[((sp or "?").split(":")[0], c)].add((c06.fn_def(N[a]), sp))
                 continue
@@ -139,7 +156,7 @@ def run(facts, tier):
     driver = {i for i, n in enumerate(N) if re.match(r"^(jaq_all::data::run|jaq::filter::run|jaq_fmts::read::formats::(read|parse)|jaq_fmts::read::collect_if)\b", n["def"])}
 
     # ---------------- L3.1 forcing-site discipline
-    l1 = Rule("L3.1", "forcing-site discipline: code that runs when a filter's output iterator is *constructed* (natives, the interpreter, their helpers) and the command-line driver consume a value stream only at the reviewed sites of tables/forcing_sites.json (e.g. `[f]` collects, `//` looks at the left operand, `last` folds, sorting collects keys, the single-output fast path); any new collect/count/peek/next at construction time is reported", floor=25)
+    l1 = Rule("L3.1", "forcing-site discipline: code that runs when a filter's output iterator is *constructed* (natives, the interpreter, their helpers) and the command-line driver consume a value stream only at the reviewed sites of tables/forcing_sites.json (e.g. `[f]` collects, `//` looks at the left operand, `last` folds, sorting collects keys, the single-output fast path); any new collect/count/peek/next at construction time is reported", floor=20)
     tab = json.load(open(os.path.join(VERIF, "rules", "tables", "forcing_sites.json")))["entries"]
     # reviewed per source file (where the reasons were written), evaluated per crate: moving a function between
     # files of a crate is not a new forcing site
